@@ -134,6 +134,8 @@ func c17Enumerate(tier string, seed int64, emit func(string, any)) {
 			emit("acting", c17Case{Kind: "acting", Tmpl: t.t, Op: o.text, Loop: t.loop, Src: strings.ReplaceAll(t.t, "@", o.text)})
 			// the same, with parsers registered BEFORE the acting ones that read ahead and decline without rewinding
 			emit("acting", c17Case{Kind: "acting", Tmpl: t.t, Op: o.text, Loop: t.loop, Src: strings.ReplaceAll(t.t, "@", o.text), Ext: 1})
+			// the same, with the extensions registered one after the other on a VM that evaluates something in between
+			emit("acting", c17Case{Kind: "acting", Tmpl: t.t, Op: o.text, Loop: t.loop, Src: strings.ReplaceAll(t.t, "@", o.text), Ext: 2})
 		}
 	}
 	c17MoreEnumerate(tier, emit)
@@ -243,6 +245,13 @@ func c17Run(raw json.RawMessage) harn.Result {
 			returned = append(returned, v)
 			return v, "", nil
 		})
+		if c.Ext == 2 {
+			// the regex extension is in use before the stream parser is registered
+			for _, warm := range []string{"1 + 1", "E7 + 1", "x", "C1T2"} {
+				_ = vm.Run(warm)
+			}
+			log, returned = nil, nil
+		}
 		type pl struct{ a, b int }
 		_ = vm.RegCustomDiceParser(func(ctx *ds.Context, st *ds.CustomDiceStream) (*ds.CustomDiceParseResult, error) {
 			r, ok := st.Read()
